@@ -747,6 +747,41 @@ def fixed_shard(arg):
     return res
 
 
+CSS_ALPHA = ['\\', '5', 'c', '/', '*', ';', ':', '(', ')', 'u', ' ', '\n', 'a']
+ENT_ALPHA = ['&', '#', 'x', 'X', '1', 'a', ';', 'm', 'p', '\u0663', 'g']
+URI_ALPHA = ['#', ':', 'a', 'A', '/', ' ', '\t', '\u212a', '1', '&', '"']   # no + - . (finding C06-scheme-punct)
+
+
+def exhaustive_shard(arg):
+    """all strings up to a length over three critical alphabets through the text-level functions
+    (oracle + model): `color:` + s for sanitize_css, s for stripentities, `htt` + s + `p:x` and s
+    for is_safe_uri"""
+    import itertools
+    idx, nshards, L = arg
+    res = Result()
+    cases = []
+    cfg = {'safe_attrs': {'add': ['style']}}
+    i = 0
+    for n in range(L + 1):
+        for tup in itertools.product(range(len(CSS_ALPHA)), repeat=n):
+            if i % nshards == idx:
+                cases.append({'kind': 'css', 'text': 'color:' + ''.join(CSS_ALPHA[k] for k in tup), 'cfg': cfg})
+                if n <= L - 1:
+                    cases.append({'kind': 'ent', 'text': ''.join(ENT_ALPHA[k % len(ENT_ALPHA)] for k in tup) + '1;'})
+                    u = ''.join(URI_ALPHA[k % len(URI_ALPHA)] for k in tup)
+                    cases.append({'kind': 'uri', 'text': 'f' + u + 'tp:x', 'cfg': None})
+            i += 1
+    for c in cases:
+        res.evaluations += 1
+        f = oracle_case(c, res)
+        if f:
+            res.failures.append(f)
+    compare(cases, [None] * len(cases), res)
+    res.count('exhaustive-strings', len(cases))
+    res.streams = dict(('exhaustive-' + k, v) for k, v in res.streams.items())
+    return res
+
+
 def run(ctx):
     nsh = 16
     per = ctx.n(1800, 25000)
@@ -754,6 +789,9 @@ def run(ctx):
     for r in pmap('harness.props.c06', 'shard', [(ctx.seed, i, per) for i in range(nsh)]):
         res.merge(r)
     for r in pmap('harness.props.c06', 'fixed_shard', [0]):
+        res.merge(r)
+    L = ctx.n(3, 4)
+    for r in pmap('harness.props.c06', 'exhaustive_shard', [(i, nsh, L) for i in range(nsh)]):
         res.merge(r)
     res.rule = ('tag soup, raw event streams (a third ill nested), style texts, URIs and reference texts from an XSS '
                 'payload vocabulary, default / style-allowing / custom configurations; non-trivial = the filter changed '
